@@ -253,6 +253,15 @@ def gen_scenario(r, tabs, res):
         pr = dict(pid=10 + p, appid=r.choice([1, 2, 7]), rank=(r.randrange(0, 4) * 2 + p if with_rank else None), threads=[], labels={})
         sc.procs.append(pr)
         refs[pr["pid"]] = L.L2Ref(sc.model, ss_dup, st_body)
+    # size of the MPI job: the smallest legal one (nranks = highest rank + 1, so a lone rank 0 has
+    # nranks 1: seeded C07-7 cleared the rank row only for nranks > 1), a usual one, a huge one
+    ranks = [pr["rank"] for pr in sc.procs if pr["rank"] is not None]
+    sc.nranks = r.choice([max(ranks) + 1, max(ranks) + 1, 16, 2 ** 20]) if ranks else None
+    if ranks and nproc == 1 and r.random() < 0.4:
+        sc.procs[0]["rank"], sc.nranks = 0, 1
+    res_dist_nranks = "none" if sc.nranks is None else "1" if sc.nranks == 1 else "min" if sc.nranks == max(
+        [pr["rank"] for pr in sc.procs if pr["rank"] is not None]) + 1 else "large"
+    sc.nranks_class = res_dist_nranks
     for t in range(max(nth, nproc)):
         pr = sc.procs[t % nproc]
         pr["threads"].append(tid + t)
@@ -365,6 +374,7 @@ def gen_scenario(r, tabs, res):
         sc.expect = "ok" if empty else "finish"
     res.dist("e2e-model:" + mname)
     res.dist("e2e-kind:" + sc.note)
+    res.dist("e2e-nranks:" + getattr(sc, "nranks_class", "none"))
     return sc
 
 
@@ -405,7 +415,7 @@ def scenario_streams(sc, tabs):
         for t in pr["threads"]:
             s = Stream(loom=loom, tid=t, pid=pr["pid"], app_id=pr["appid"], require=req,
                        cpus=[(i, i) for i in range(len(lth))] if loom not in seen else None,
-                       rank=pr["rank"], nranks=16 if pr["rank"] is not None else None)
+                       rank=pr["rank"], nranks=getattr(sc, "nranks", 16) if pr["rank"] is not None else None)
             seen.add(loom)
             s.ev(100 + allth.index(t), "OHx", i32(lth.index(t), -1) + u64(0))
             streams[t] = s
